@@ -161,6 +161,37 @@ func CacheKeyShape(p *core.Program, r *core.Report, rule string) {
 			return true
 		})
 		r.Check(ok, rule, kf.Key()+": the key is (owner key of src, owner key of dst, protocol, port), in this order", p.Pos(kf.Decl.Pos()), got, "the cache key is built from "+got+": two different queries can share a key (or src/dst are swapped)")
+		// a key exists only for two pods that both have an owner: the label variant, the part of the key that follows the
+		// pod's labels, is set only together with an owner; an owner-less pod would keep its key across a label change
+		var join *ast.CallExpr
+		ast.Inspect(kf.Decl.Body, func(n ast.Node) bool {
+			if c, isC := n.(*ast.CallExpr); isC {
+				if fn := core.Callee(info, c); fn != nil && fn.Pkg() != nil && fn.Pkg().Path() == "strings" && fn.Name() == "Join" {
+					join = c
+				}
+			}
+			return true
+		})
+		okGuard := false
+		txt := ""
+		if join != nil {
+			fm, _, found := FactsAt(kf, join, nil)
+			if found {
+				txt = facts.StripVersions(facts.String(fm))
+				hasOwner := map[string]bool{}
+				for _, a := range facts.Atoms(fm) {
+					st := facts.StripVersions(a)
+					for i := 0; i < 2; i++ {
+						pn := sig.Params().At(i).Name()
+						if strings.HasPrefix(st, "eq:"+pn+".") && strings.HasSuffix(st, ".Owner.Name==\"\"") && facts.Entails(fm, facts.Not{X: facts.Atom(a)}) {
+							hasOwner[pn] = true
+						}
+					}
+				}
+				okGuard = len(hasOwner) == 2
+			}
+		}
+		r.Check(okGuard, rule, kf.Key()+": a key is built only when both pods have an owner", p.Pos(kf.Decl.Pos()), "Owner.Name != \"\" for src and dst", "a cache key is built for a pod without an owner ("+txt+"): its label variant is never set (PodFromCoreObject computes it only together with an owner), so the key does not change when the pod is re-inserted with other labels and the verdict cached before the update is served after it")
 	}
 	// 2. getPodOwnerKey reads namespace, owner name and label variant
 	{
